@@ -17,7 +17,7 @@ RULE = ("Line/Quadratic/Cubic segments of every class and paths of 2-5 of them a
 ASSUMPTIONS = ["point() is the reference curve (C03)", "tolerance 1e-7*size + 1e-9*d (the critical points come from np.roots)"]
 CONFIGS = ['scipy']
 BUDGET = {'quick': 16000, 'thorough': 300000}
-REQUIRED = ['reversed_after_queries', 'q:far', 'q:near', 'q:on', 'q:curvature_centre', 'q:beyond_end', 'q:random', 'kind:L', 'kind:Q', 'kind:C', 'path', 'interior_min',
+REQUIRED = ['reversed_after_queries', 'reassigned_after_queries', 'q:far', 'q:near', 'q:on', 'q:curvature_centre', 'q:beyond_end', 'q:random', 'kind:L', 'kind:Q', 'kind:C', 'path', 'interior_min',
             'interior_max']
 
 EPS = 2.0 ** -52
@@ -130,6 +130,14 @@ def check(case, ctx):
             seg = ctx.lib('reversed', seg.reversed)
             spec = [spec[0]] + list(reversed(spec[1:]))
             ctx.count('reversed_after_queries')
+        elif case['k'] % 3 == 1 and spec[0] != 'L':
+            # ... or the same object, queried and then edited in place (an end point reassigned)
+            seg.radialrange(z)
+            seg.poly()
+            seg.bbox()
+            seg.end = seg.end + complex(0.37, -0.21) * size
+            spec = gen.seg_spec_of(seg)
+            ctx.count('reassigned_after_queries')
         ctx.count('kind:' + spec[0])
         res = ctx.lib('radialrange/' + spec[0], seg.radialrange, z)
         (dmin, tmin), (dmax, tmax) = res
